@@ -62,6 +62,16 @@ func (s *Svc) Make(n int) []Point {
 	return out
 }
 
+// Any returns a value of a Go type that has (very likely) never been converted
+// before: a fresh array length per call, behind an interface.
+func (s *Svc) Any(n int) any {
+	id := int(freshCounter.Add(1))
+	arr := reflect.New(reflect.ArrayOf(id%50000+2, reflect.TypeOf(0))).Elem()
+	arr.Index(0).SetInt(int64(n))
+	arr.Index(1).SetInt(int64(s.N))
+	return arr.Interface()
+}
+
 func (s *Svc) Grid(rows [][]float64) float64 {
 	t := 0.0
 	for _, r := range rows {
@@ -119,7 +129,12 @@ func (ft *freshTypes) values(k int) map[string]any {
 	tab.SetMapIndex(reflect.ValueOf("only"), it)
 	arr := reflect.New(reflect.ArrayOf(2, ft.Item)).Elem()
 	arr.Index(1).FieldByName("V").SetInt(int64(7 * k))
+	it2 := reflect.New(ft.Item).Elem()
+	it2.FieldByName("V").SetInt(int64(500 + k))
 	return map[string]any{
+		// values of fresh types behind interfaces (dynamic conversion paths)
+		"anys":  []any{it2.Interface(), int64(k), "s", []int{k, 1}},
+		"amap":  map[string]any{"x": it2.Interface(), "n": k},
 		"rec":   rec.Interface(),        // pointer to fresh struct
 		"recv":  rec.Elem().Interface(), // fresh struct by value
 		"items": items.Interface(),      // slice of fresh struct
@@ -164,6 +179,12 @@ var c09Ops = []string{
 	`z := encode(string(nums), "gzip"); out.append(len(z) > 0); out.append(string(decode(z, "gzip")))`,
 	`t := spawn(func() { import statemod; return statemod.bump() }); import shared_mod; out.append(shared_mod.triple(t.wait()))`,
 	`t := spawn(func() { import shared_mod; return shared_mod.triple(5) }); tr := spawn(func() { import statemod; return statemod.bump() }); out.append([t.wait(), tr.wait()])`,
+	`out.append(anys[0].V); out.append(len(anys))`,
+	`out.append(amap["x"].V + amap["n"])`,
+	`n := svc.Any(4); out.append(n[0] + n[1])`,
+	`n := 0; for _, a := range [svc.Any(1), svc.Any(2)] { n += a[0] }; out.append(n)`,
+	`func mkf(i) { g := func(x) { h := func() { return x + i }; return h() }; return g(i + 1) }; t := spawn(func() { return mkf(1) }); tr := spawn(func() { return mkf(3) }); out.append([mkf(5), t.wait(), tr.wait()])`,
+	`func deep1(a) { func deep2(b) { func deep3(c) { return a + b + c }; return deep3(b + 1) }; return deep2(a + 1) }; t := spawn(deep1, 1); out.append([deep1(2), t.wait()])`,
 	`import statemod; statemod.bump(); statemod.bump(); out.append(statemod.count)`,
 	`import statemod as sm; out.append(sm.bump() + sm.count)`,
 	`from statemod import bump as bmp; bmp(); import statemod; out.append(statemod.count)`,
@@ -181,9 +202,14 @@ func genC09Program(g *sim.Stream) string {
 	for i := 0; i < n; i++ {
 		op := c09Ops[g.Intn(len(c09Ops))]
 		// every statement gets its own variable names
-		for _, v := range []string{"n", "t", "tr", "sm", "bmp", "z"} {
-			op = regexp.MustCompile(`\b`+v+`\b`).ReplaceAllString(op, fmt.Sprintf("%s%d", v, i))
+		// (string literals are left alone: only code outside quotes is renamed)
+		parts := strings.Split(op, `"`)
+		for pi := 0; pi < len(parts); pi += 2 {
+			for _, v := range []string{"n", "t", "tr", "sm", "bmp", "z", "mkf", "deep1"} {
+				parts[pi] = regexp.MustCompile(`\b`+v+`\b`).ReplaceAllString(parts[pi], fmt.Sprintf("%s%d", v, i))
+			}
 		}
+		op = strings.Join(parts, `"`)
 		b.WriteString(op)
 		b.WriteString("\n")
 	}
@@ -341,7 +367,7 @@ func c09GlobalNames() []string {
 	for k := range builtins.Builtins() {
 		names = append(names, k)
 	}
-	names = append(names, "rec", "recv", "items", "tab", "arr", "svc", "pt", "nums", "grid", "publish")
+	names = append(names, "rec", "recv", "items", "tab", "arr", "svc", "pt", "nums", "grid", "publish", "anys", "amap")
 	sort.Strings(names)
 	return names
 }
